@@ -1016,7 +1016,18 @@ static int run_once(const struct point *p, vh_rng rng, const struct fault *fl, s
 	}
 	t3 = nowf(); t_probe += t3 - t2;
 	i = lm_held_now();
-	fx_teardown(f);
+	if (fl->kind != FK_NONE) {
+		/* CALIBRATED: after a call failed under an injected fault an object may be left in a state its destructor
+		 * asserts on (e.g. a base whose event_reinit() failed); a fatal exit of the library while the fixture is
+		 * being released is not a lock statement - the fixture is abandoned */
+		if (setjmp(fatal_jmp) == 0) { fatal_armed = 1; fx_teardown(f); fatal_armed = 0; }
+		else {
+			xs("fatal_handler_exits_in_teardown_after_fault");
+			if (!recover_leak(f, i)) { fflush(stdout); _exit(0); }
+			(void)lm_take_violation();
+			return bad;
+		}
+	} else fx_teardown(f);
 	t_tear += nowf() - t3;
 	lv = lm_take_violation();
 	if (lm_held_now() != i || lv) {
